@@ -135,6 +135,30 @@ theorem C17_set_existing (m : List SE) (hs : SortedE vlt m) (old e : SE) (ho : o
       simp only [hlt, ↓reduceIte, Spec.get, List.find?_cons, hne, decide_false]
       exact ih hxs ho'
 
+/-- the order of the model is the order of the code: `types.CompareKeys` on the strings `key@ts` that
+    `types.KeyWithTs` builds is "user key ascending, then version descending", for all byte strings
+    (user keys may contain `@`, bytes below `@`, digits) and all timestamps below 2^64 -/
+theorem C17_order_is_compareKeys (k1 k2 : Bytes) (t1 t2 : Nat) (h1 : t1 < 2 ^ 64) (h2 : t2 < 2 ^ 64) :
+    compareKeys? (keyWithTs k1 t1) (keyWithTs k2 t2) = some ((cmpBytes k1 k2).then (compare t2 t1)) ∧
+    parseKey? (keyWithTs k1 t1) = some k1 ∧ parseTs (keyWithTs k1 t1) = t1 :=
+  ⟨compareKeys_keyWithTs k1 k2 t1 t2 h1 h2, parseKey_keyWithTs k1 t1, parseTs_keyWithTs k1 t1 h1⟩
+
+/-- … and `vlt` is exactly "that comparison is negative" -/
+theorem C17_vlt_iff (a b : VK) :
+    vlt a b = true ↔ (cmpBytes a.user b.user).then (compare b.ts a.ts) = Ordering.lt := by
+  unfold vlt bltB
+  cases hc : cmpBytes a.user b.user with
+  | lt => simp [Ordering.then]
+  | gt =>
+    have hne : a.user ≠ b.user := by
+      intro e; rw [e, (cmpBytes_eq_iff b.user b.user).mpr rfl] at hc; cases hc
+    simp [Ordering.then, hne]
+  | eq =>
+    have he : a.user = b.user := (cmpBytes_eq_iff _ _).mp hc
+    have h0 : (Ordering.eq == Ordering.lt) = false := rfl
+    simp only [Ordering.then, he, beq_self_eq_true, Bool.true_and, h0, Bool.false_or, decide_eq_true_eq]
+    exact Nat.compare_eq_lt.symm
+
 example : HeightsOk [.set ⟨⟨[97], 1⟩, [1], false, 1⟩ 2, .delete ⟨[97], 1⟩, .set ⟨⟨[97], 2⟩, [], true, 2⟩ 1] := by
   simp [HeightsOk]
 
@@ -142,4 +166,6 @@ example : HeightsOk [.set ⟨⟨[97], 1⟩, [1], false, 1⟩ 2, .delete ⟨[97],
 #print axioms C17_queries
 #print axioms C17_spec_sorted
 #print axioms C17_set_existing
+#print axioms C17_order_is_compareKeys
+#print axioms C17_vlt_iff
 end Props
